@@ -36,6 +36,9 @@ type c16Case struct {
 	// StartSeq: the sender's record sequence number is advanced to this value before the payloads
 	// are sent (a long-lived connection)
 	StartSeq uint64 `json:"startseq,omitempty"`
+	// ListenWindow != 0: the server is created with a listener configuration whose ReplayWindow is this
+	// value (-1: unset) and whose GetConfigForClient returns the configuration with Window, then in force
+	ListenWindow int `json:"listenwindow,omitempty"`
 	Sched []c16Item `json:"sched"`
 }
 
@@ -48,6 +51,15 @@ func c16Deliver(c c16Case, withForgeries bool) (got [][]byte, seqs []uint64, fir
 	scfg.ReplayWindow = c.Window
 	cc := vfNewCapCache(4)
 	ccfg.SessionCache, scfg.SessionCache = cc, vfNewCapCache(4)
+	if c.ListenWindow != 0 {
+		l, inner := scfg.Clone(), scfg.Clone()
+		l.ReplayWindow = c.ListenWindow
+		if l.ReplayWindow == -1 {
+			l.ReplayWindow = 0
+		}
+		l.GetConfigForClient = func(*ClientHelloInfo) (*Config, error) { return inner, nil }
+		scfg = l
+	}
 	var stash [][]byte
 	var sim *vfDSim
 	capture := false
@@ -278,6 +290,9 @@ func TestVF_C16_Conn(t *testing.T) {
 		c := c16Case{Suite: rapid.SampledFrom([]uint16{ECC_SM4_GCM_SM3, ECC_SM4_CBC_SM3}).Draw(t, "suite"), Window: rapid.SampledFrom([]int{0, 32, 64, 128, 1, 8, 31, 33, 65, -5}).Draw(t, "window"),
 			N: rapid.SampledFrom([]int{3, 8, 40, 100}).Draw(t, "n"), ReadFrom: rapid.Bool().Draw(t, "readfrom"), Mixed: rapid.IntRange(0, 3).Draw(t, "mixed") == 0,
 			StartSeq: rapid.SampledFrom([]uint64{0, 0, 0, 250, 65530, 1<<32 - 5, 1<<32 + 7, 1 << 40, 1<<48 - 300}).Draw(t, "startseq")}
+		if rapid.IntRange(0, 3).Draw(t, "listen") == 0 {
+			c.ListenWindow = rapid.SampledFrom([]int{-1, 32, 64, 128, 8}).Draw(t, "listenwindow")
+		}
 		n := rapid.IntRange(1, 2*c.N+4).Draw(t, "len")
 		cursor := 0
 		for i := 0; i < n; i++ {
